@@ -949,7 +949,12 @@ pub fn cost_case(family: &str, n: usize, seed: u64) -> Result<(Cfg, Vec<Vec<u8>>
     Ok((cfg, pats, s, hay))
 }
 
-/// `acmon cost <family> <n> <mode> <seed>`: mode full | span | sub.
+/// Bytes placed before ("span" mode) or after ("tail" mode) the searched span.
+/// Large enough that even a single vectorised pass over them (a few
+/// instructions per 64 bytes) costs several hundred thousand instructions.
+pub const OUTSIDE_BYTES: usize = 8 << 20;
+
+/// `acmon cost <family> <n> <mode> <seed>`: mode full | span | tail | sub.
 pub fn cost_main(family: &str, n: usize, mode: &str, seed: u64) -> Result<String, String> {
     let (cfg, pats, s, body) = cost_case(family, n, seed)?;
     let (hay, span) = match mode {
@@ -960,13 +965,22 @@ pub fn cost_main(family: &str, n: usize, mode: &str, seed: u64) -> Result<String
         "span" => {
             // a long prefix without any candidate byte, then the body
             let filler = body[0];
-            let prefix = 262_144;
+            let prefix = OUTSIDE_BYTES;
             let mut h = vec![filler; prefix];
             h.extend_from_slice(&body);
             let l = h.len();
             (h, (prefix, l))
         }
-        _ => return Err("mode must be full, span or sub".into()),
+        "tail" => {
+            // the body first, then a long suffix without any candidate byte;
+            // the span covers the body only
+            let filler = body[0];
+            let n = body.len();
+            let mut h = body;
+            h.extend(std::iter::repeat(filler).take(OUTSIDE_BYTES));
+            (h, (0, n))
+        }
+        _ => return Err("mode must be full, span, tail or sub".into()),
     };
     let op = if family.starts_with("overlap-") {
         "overlap"
